@@ -4,6 +4,7 @@ compiled artefacts (plan JSON, SQL text) through the public API."""
 
 from __future__ import annotations
 
+import datetime as _dt
 import json
 import warnings
 
@@ -13,7 +14,7 @@ import sqlalchemy as sqa
 import pydiverse.transform as pdt
 from pydiverse.transform import extended as X
 
-from .kernel import BOOL, INT, REAL, STR
+from .kernel import BOOL, DATE, DT, INT, REAL, STR
 
 warnings.filterwarnings("ignore")
 
@@ -55,6 +56,8 @@ class RealAPI:
     Float = pdt.Float
     String = pdt.String
     Bool = pdt.Bool
+    Date = pdt.Date
+    Datetime = pdt.Datetime
     is_ref = False
 
     @staticmethod
@@ -116,9 +119,9 @@ class RealAPI:
 SYMBOLIC_BUILD = [False]
 COLLECTED = []
 
-PL_TY = {INT: pl.Int64, BOOL: pl.Boolean, STR: pl.String, REAL: pl.Float64}
-SQA_TY = {INT: sqa.BigInteger, BOOL: sqa.Boolean, STR: sqa.String, REAL: sqa.Double}
-DUMMY = {INT: 0, BOOL: False, STR: "", REAL: 0.0}
+PL_TY = {INT: pl.Int64, BOOL: pl.Boolean, STR: pl.String, REAL: pl.Float64, DATE: pl.Date, DT: pl.Datetime("us")}
+SQA_TY = {INT: sqa.BigInteger, BOOL: sqa.Boolean, STR: sqa.String, REAL: sqa.Double, DATE: sqa.Date, DT: sqa.DateTime}
+DUMMY = {INT: 0, BOOL: False, STR: "", REAL: 0.0, DATE: _dt.date(2000, 1, 1), DT: _dt.datetime(2000, 1, 1)}
 
 
 def dummy_frame(schema, k):
@@ -129,9 +132,18 @@ def dummy_frame(schema, k):
     )
 
 
+def _pyval(v, ty):
+    # replay files store temporal values as ISO text
+    if isinstance(v, str) and ty == DATE:
+        return _dt.date.fromisoformat(v)
+    if isinstance(v, str) and ty == DT:
+        return _dt.datetime.fromisoformat(v)
+    return v
+
+
 def frame_from_rows(schema, rows):
     return pl.DataFrame(
-        {c: [r[c] for r in rows] for c in schema}, schema={c: PL_TY[ty] for c, ty in schema.items()}
+        {c: [_pyval(r[c], ty) for r in rows] for c, ty in schema.items()}, schema={c: PL_TY[ty] for c, ty in schema.items()}
     )
 
 
@@ -168,6 +180,21 @@ def plan_json(tbl):
 
 def sql_text(tbl):
     return tbl >> X.build_query()
+
+
+def sqlite_result_kinds(tbl):
+    """output name -> kind of SQLAlchemy result processor ('date'|'datetime'|'bool'|None) of
+    the Select that export() executes (read from the real compiled Select)"""
+    from pydiverse.transform._internal.backend.sqlite import SqliteImpl
+
+    sel = SqliteImpl.build_select(tbl._ast.clone())  # export() compiles a clone as well
+    out = {}
+    for c in sel.selected_columns:
+        ty = c.type
+        out[c.name] = (
+            "datetime" if isinstance(ty, sqa.DateTime) else "date" if isinstance(ty, sqa.Date) else "bool" if isinstance(ty, sqa.Boolean) else None
+        )
+    return out
 
 
 def export_rows(tbl):
